@@ -312,8 +312,8 @@ func compareTable(c *fw.Ctx, rule, what string, fn *ssa.Function, resIdx int, va
 		}
 		foreign := false
 		for o := range outs {
-			if !oracleOutcomes[o] {
-				foreign = true // an outcome outside the oracle's vocabulary (a computed value, say)
+			if !oracleOutcomes[o] && strings.HasPrefix(o, "value:") && strings.ContainsAny(o, "(") {
+				foreign = true // a computed value the interpretation cannot evaluate
 			}
 		}
 		if got != want && (strings.Contains(got, "unknown") || (foreign && len(rows) > 0)) {
